@@ -328,6 +328,42 @@ def search(rep: C.Report, tier: str, broken):
                 if bad_:
                     rep.violation("evaluation at integer-typed abscissae differs from the evaluation at the same abscissae given as floats",
                                   dict(det, returnValueCount=k, modes=[ml.name, mu.name], table=[1.0, 4.0, 13]), finding_key="C18:integer-input")
+    # derivatives at points only just OUTSIDE the table (closer than the finite-difference stencil is wide, so that the stencil straddles the end of
+    # the table) where the mode on that side is direct evaluation or spline extrapolation: both prescribe the cubic itself, whose derivative the
+    # stencil reproduces -- whichever mode the OTHER side has
+    for k in (1, 2, 4):
+        coefE = [[1.3, -2.1, 0.7, 0.31], [0.25, 1.1, 0.0, -0.9], [2.2, 0.0, 1.7, 0.0], [-0.4, 0.6, -1.2, 0.2]]
+        clsE = make(k, coefE)
+        for ml in modes:
+            for mu in modes:
+                for order in (1, 2):
+                    f = clsE(bUseAdaptiveInterpolation=False, initialInterpolationPointCount=10, returnValueCount=k)
+                    f.badpts = []
+                    f.newInterpolationTable(1.0, 4.0, 13)
+                    f.setExtrapolationType(ml, mu)
+                    for side, md in (("lower", ml), ("upper", mu)):
+                        if md not in (E.NONE, E.FUNCTION):
+                            continue
+                        dxs = np.array([2e-4, 7e-4, 1.5e-3, 3e-3])
+                        xq = 1.0 - dxs if side == "lower" else 4.0 + dxs
+                        for xin in (xq, float(xq[1]), xq.reshape(2, 2)):
+                            dwant = np.stack([(c[1] + 2 * c[2] * np.asarray(xin) + 3 * c[3] * np.asarray(xin) ** 2) if order == 1 else
+                                              (2 * c[2] + 6 * c[3] * np.asarray(xin)) for c in coefE[:k]], axis=-1)
+                            if k == 1:
+                                dwant = dwant[..., 0]
+                            rep.case(key=("derivative-just-outside", k, ml.name, mu.name, side, order, str(np.shape(xin))))
+                            rep.count("derivative just outside the table")
+                            try:
+                                got = np.asarray(f.derivative(xin, order=order), dtype=float)
+                                bad_ = got.shape != dwant.shape or not np.all(np.abs(got - dwant) <= 1e-4 * (1 + np.abs(dwant)))
+                                det = {"got": got.tolist(), "exact": dwant.tolist()}
+                            except Exception as ex:  # noqa: BLE001
+                                bad_, det = True, {"error": f"{type(ex).__name__}: {str(ex)[:120]}"}
+                            if bad_:
+                                rep.violation("derivative just outside the table (stencil straddling its end) differs from the derivative of the function the mode "
+                                              "on that side prescribes", dict(det, returnValueCount=k, modes=[ml.name, mu.name], side=side, order=order,
+                                                                              x=np.asarray(xin).tolist(), table=[1.0, 4.0, 13]),
+                                              finding_key="C18:derivative-just-outside")
     # directed histories: a derivative is taken, THEN the table changes (extension, mode change, new table from values), then a derivative is
     # asked inside the new range but outside the old one: it must be the derivative of the CURRENT table
     for k in (1, 3):
